@@ -133,7 +133,8 @@ def gen_history(rng, adversarial):
                     if rng.chance(0.7):
                         host, port = cur = (shost, sport)
                     exp = rng.choice(EXPIRY[4:8]) if rng.chance(0.6) else None
-                hs.append(set_cookie_header(name, rng.choice(VALUES), dom, path, exp))
+                val = rng.choice(VALUES) if rng.chance(0.35) else "v%d" % len(stored)
+                hs.append(set_cookie_header(name, val, dom, path, exp))
                 stored.append((host, port, dom, path, name))
             evs.append({"t": "resp", "host": host, "port": port, "set_cookie": [hx(h.encode("utf-8", "surrogateescape")) for h in hs]})
         else:
@@ -379,12 +380,21 @@ def oracle(case, obs):
                 pairs = [(_u(n), _u(val)) for i in idx for n, val in jar[i][1]]
                 return bool(pairs) and _b(cookies.format_cookie_header(pairs)) == o["header"]
 
+            def failed(i):
+                (d, p, q), _items = jar[i]
+                return ((p != port) + (not rfc_domain_match(host, rfc_cookie_domain(_u(d))))
+                        + (q is None or not rfc_path_match(upath, _u(q))))
+
             def search(pool):
+                """the explanation of the header by jar entries that needs the fewest failed conditions"""
+                best = None
                 for r in range(1, len(pool) + 1):
                     for sub in itertools.combinations(pool, r):
                         if explains(sub):
-                            return sub
-                return None
+                            cost = sum(failed(i) for i in sub)
+                            if best is None or cost < best[0]:
+                                best = (cost, sub)
+                return None if best is None else best[1]
             if not case["flt"] or not o["fmatch"]:
                 v.append({"key": "attach-filter", "what": f"Cookie header changed although the filter does not match ({ev['host']!r})"})
             elif search(ok_ents) is None:
